@@ -77,7 +77,7 @@ def run(ctx):
         if ctx.violations:
             break
     # targeted: content that leaves the tree for one or two runs and comes back (same or another path) while its group still holds it
-    for absent_runs in ((1, 2) if not ctx.violations else ()):
+    for absent_runs in ((1, 2) if not ctx.has_failing_input() else ()):
         with slevel.Sandbox("c09") as sb:
             H = runs.History(ctx, sb, rng, "C09", 3, 6, nitems=2, identity_changes=True)
             H.advance = lambda: None
